@@ -37,6 +37,13 @@ theorem uncovered_reads_by_field :
 theorem residue_is_exactly :
     residue .user = ["ChangesHash", "Signature"] ∧ residue .contractReceive = [] := by decide
 
+/-- what the pool / ledger serialise of the accepted object (`AccountBlockTransaction.GetCommits` → `Serialize()` → `Proto()`,
+    generated assignment list): every struct field the table does not call `notStored`, in struct order, on both paths — so
+    equal stored objects are equal stored bytes and a field added to the struct without a treatment shows up here -/
+theorem stored_fields_are_proto_fields :
+    ∀ p ∈ [Path.user, Path.contractReceive],
+      Gen.abStructFields.filter (fun f => treat p f != .notStored) = Gen.abProtoAssign.map (·.1) := by decide
+
 /-! ## user blocks -/
 
 private theorem strip_body {b1 b2 : Block} (h : b1.strip = b2.strip) : b1.body.strip = b2.body.strip := by
